@@ -28,6 +28,8 @@ def updateStatusT (p : Proc) (i : Nat) (s : PState) : Proc :=
 
 inductive Strategy | config | lessLoaded | mostLoaded | local | lessLoadedNode | mostLoadedNode
   deriving DecidableEq, Repr, Inhabited
+def Strategy.code : Strategy → Nat
+  | .config => 0 | .lessLoaded => 1 | .mostLoaded => 2 | .local => 3 | .lessLoadedNode => 4 | .mostLoadedNode => 5
 def Strategy.ofCode : Nat → Strategy
   | 0 => .config | 1 => .lessLoaded | 2 => .mostLoaded | 3 => .local | 4 => .lessLoadedNode | _ => .mostLoadedNode
 
@@ -63,6 +65,8 @@ structure Command where
 
 structure AppJobs where
   app : Nat
+  /-- creation rank of this `ApplicationStartJobs` object (which user request a start belongs to) -/
+  runId : Nat := 0
   planned : List (Nat × List Command)
   current : List Command := []
   stopRequest : Bool := false
@@ -77,13 +81,15 @@ structure StopCommand where
 
 structure StopJobs where
   app : Nat
+  /-- creation rank of this `ApplicationStopJobs` object (object identity in `Commander.next`) -/
+  runId : Nat := 0
   planned : List (Nat × List StopCommand)
   current : List StopCommand := []
   deriving Repr, Inhabited
 
 inductive Out where
-  | start (p i : Nat)
-  | force (p : Nat) (s : PState) (noResource : Bool)
+  | start (p i : Nat) (run : Nat) (strat : Strategy)
+  | force (p : Nat) (s : PState) (noResource : Bool) (run : Nat)   -- run: rank of the application start concerned (999: none)
   | stop (p i : Nat)
   deriving Repr
 
@@ -101,6 +107,8 @@ structure W where
   splanned : List (Nat × List StopJobs) := []
   scurrent : List StopJobs := []
   appStartReq : List (Nat × Strategy) := []
+  jobCount : Nat := 0             -- number of `ApplicationStartJobs` objects created so far
+  stopJobCount : Nat := 0         -- number of `ApplicationStopJobs` objects created so far
   now : Nat := 0
   out : List Out := []
   deriving Repr, Inhabited
@@ -149,20 +157,27 @@ def lastMax (key : Nat → Nat × Nat) : List Nat → Option Nat
     | some m => let kh := key h; let km := key m
       if kh.1 > km.1 ∨ (kh.1 = km.1 ∧ kh.2 > km.2) then some h else some m
 
+/-- node load counted by the strategies: current load of the node plus the requests pending on it -/
+def nodeLoading (w : W) (req : List (Nat × Nat)) (i : Nat) : Nat :=
+  nodeLoad w (w.node.getD i 0) + nodeReq w req (w.node.getD i 0)
+/-- instance load counted by the strategies: current load of the instance plus the requests pending on it -/
+def instLoading (w : W) (req : List (Nat × Nat)) (i : Nat) : Nat := instLoad w i + reqOf req i
+
+/-- the candidates seen RUNNING whose node stays at or below 100 with the additional load (`is_loading_valid`) -/
+def validCands (w : W) (idents : List Nat) (load : Nat) (req : List (Nat × Nat)) : List Nat :=
+  (idents.filter (fun i => w.instRunning.getD i false)).filter (fun i => nodeLoading w req i + load ≤ 100)
+
 /-- strategy.get_supvisors_instance -/
 def chooseInstance (w : W) (strat : Strategy) (idents : List Nat) (load : Nat) (req : List (Nat × Nat)) : Option Nat :=
-  let cands := idents.filter (fun i => w.instRunning.getD i false)
-  if cands.isEmpty then none else
-  let nodeLoading (i : Nat) := nodeLoad w (w.node.getD i 0) + nodeReq w req (w.node.getD i 0)
-  let instLoading (i : Nat) := instLoad w i + reqOf req i
-  let valid := cands.filter (fun i => nodeLoading i + load ≤ 100)
+  if (idents.filter (fun i => w.instRunning.getD i false)).isEmpty then none else
+  let valid := validCands w idents load req
   match strat with
   | .config => valid.head?
-  | .lessLoaded => firstMin (fun i => (instLoading i, nodeLoading i)) valid
-  | .mostLoaded => lastMax (fun i => (instLoading i, nodeLoading i)) valid
-  | .lessLoadedNode => firstMin (fun i => (nodeLoading i, instLoading i)) valid
-  | .mostLoadedNode => lastMax (fun i => (nodeLoading i, instLoading i)) valid
-  | .local => if w.me ∈ cands ∧ w.me ∈ valid then some w.me else none
+  | .lessLoaded => firstMin (fun i => (instLoading w req i, nodeLoading w req i)) valid
+  | .mostLoaded => lastMax (fun i => (instLoading w req i, nodeLoading w req i)) valid
+  | .lessLoadedNode => firstMin (fun i => (nodeLoading w req i, instLoading w req i)) valid
+  | .mostLoadedNode => lastMax (fun i => (nodeLoading w req i, instLoading w req i)) valid
+  | .local => if w.me ∈ valid then some w.me else none
 
 /-- ProcessStatus.possible_identifiers -/
 def possibleIdentifiers (w : W) (p : Nat) : List Nat :=
@@ -236,43 +251,57 @@ def stopJobInProgress (j : StopJobs) : Bool := !j.planned.isEmpty || !j.current.
 def hasRunningProcesses (w : W) (a : Nat) : Bool :=
   ((List.range w.pcfg.length).filter (fun p => (w.pcfg.getD p default).app = a)).any (fun p => procRunning (w.procs.getD p {}))
 
+/-- the processes of application `a` -/
+def appProcs (w : W) (a : Nat) : List Nat :=
+  (List.range w.pcfg.length).filter (fun p => (w.pcfg.getD p default).app = a)
+
+/-- the plan built by `Stopper.store_application`: per stop sequence, one command per (process, instance where it is
+    listed as running); empty groups are dropped -/
+def stopPlan (w : W) (a : Nat) : List (Nat × List StopCommand) :=
+  let ps := appProcs w a
+  let seqs := (ps.map (fun p => (w.pcfg.getD p default).stopSeq)).eraseDups
+  (seqs.map (fun s => (s, ((ps.filter (fun p => (w.pcfg.getD p default).stopSeq = s)).map (fun p =>
+      (w.procs.getD p {}).running.map (fun i => ({ proc := p, target := i, waitTicks := waitTicksOf (w.pcfg.getD p default).stopwaitsecs } : StopCommand)))).flatten))).filter (fun x => !x.2.isEmpty)
+
+/-- the plan built by `Starter.store_application`: the processes of the application with a strictly positive
+    start_sequence, grouped by sequence -/
+def startPlan (w : W) (a : Nat) (strat : Strategy) : List (Nat × List Command) :=
+  let ps := (appProcs w a).filter (fun p => (w.pcfg.getD p default).startSeq > 0)
+  -- application.start_sequence: dict seq -> processes, key order = first occurrence
+  let seqs := (ps.map (fun p => (w.pcfg.getD p default).startSeq)).eraseDups
+  seqs.map (fun s => (s, (ps.filter (fun p => (w.pcfg.getD p default).startSeq = s)).map (fun p => ({ proc := p, strategy := strat } : Command))))
+
 /-- Stopper.store_application -/
 def storeStopApplication (a : Nat) : M Unit := do
   let w ← get
-  let ps := (List.range w.pcfg.length).filter (fun p => (w.pcfg.getD p default).app = a)
-  let seqs := (ps.map (fun p => (w.pcfg.getD p default).stopSeq)).eraseDups
-  let planned := (seqs.map (fun s => (s, ((ps.filter (fun p => (w.pcfg.getD p default).stopSeq = s)).map (fun p =>
-      (w.procs.getD p {}).running.map (fun i => ({ proc := p, target := i, waitTicks := waitTicksOf (w.pcfg.getD p default).stopwaitsecs } : StopCommand)))).flatten))).filter (fun x => !x.2.isEmpty)
+  let planned := stopPlan w a
   if !planned.isEmpty then
     let prio := (w.acfg.getD a default).stopSeq
-    let job : StopJobs := { app := a, planned := planned }
+    let job : StopJobs := { app := a, runId := w.stopJobCount, planned := planned }
     let rec ins : List (Nat × List StopJobs) → List (Nat × List StopJobs)
       | [] => [(prio, [job])]
       | (k, js) :: t => if k = prio then
           (k, if js.any (·.app = a) then js.map (fun x => if x.app = a then job else x) else js ++ [job]) :: t
         else (k, js) :: ins t
-    modify fun w => { w with splanned := ins w.splanned }
+    modify fun w => { w with splanned := ins w.splanned, stopJobCount := w.stopJobCount + 1 }
 
 /-- Starter.store_application -/
 def storeApplication (a : Nat) (strat : Strategy) : M Unit := do
   let w ← get
-  let ps := (List.range w.pcfg.length).filter (fun p => (w.pcfg.getD p default).app = a ∧ (w.pcfg.getD p default).startSeq > 0)
-  -- application.start_sequence: dict seq -> processes, key order = first occurrence
-  let seqs := (ps.map (fun p => (w.pcfg.getD p default).startSeq)).eraseDups
-  let planned := seqs.map (fun s => (s, (ps.filter (fun p => (w.pcfg.getD p default).startSeq = s)).map (fun p => ({ proc := p, strategy := strat } : Command))))
+  let planned := startPlan w a strat
   if !planned.isEmpty then
     let prio := (w.acfg.getD a default).startSeq
-    let job : AppJobs := { app := a, planned := planned }
+    let job : AppJobs := { app := a, runId := w.jobCount, planned := planned }
     let rec ins : List (Nat × List AppJobs) → List (Nat × List AppJobs)
       | [] => [(prio, [job])]
       | (k, js) :: t => if k = prio then
           (k, if js.any (·.app = a) then js.map (fun x => if x.app = a then job else x) else js ++ [job]) :: t
         else (k, js) :: ins t
-    modify fun w => { w with planned := ins w.planned }
+    modify fun w => { w with planned := ins w.planned, jobCount := w.jobCount + 1 }
 
 mutual
 /-- listener.force_process_state -> context.on_process_state_event (forced) -> starter.on_event -/
-def failCommand (fuel : Nat) (p : Nat) (target : Option Nat) (etime : Nat) (st : PState) : M Unit := do
+def failCommand (fuel : Nat) (p : Nat) (target : Option Nat) (etime : Nat) (st : PState) (run : Nat := 999) : M Unit := do
   match fuel with
   | 0 => pure ()
   | fuel + 1 =>
@@ -280,7 +309,7 @@ def failCommand (fuel : Nat) (p : Nat) (target : Option Nat) (etime : Nat) (st :
     let force := match target with
       | some i => match getInfo x.infos i with | some v => decide (v.etime ≤ etime) | none => true
       | none => true
-    emit (.force p st target.isNone)
+    emit (.force p st target.isNone run)
     if force then
       setProc p { x with forced := some st }
       -- fsm.on_process_state_event: starter.on_event(process, local identifier)
@@ -289,27 +318,27 @@ def failCommand (fuel : Nat) (p : Nat) (target : Option Nat) (etime : Nat) (st :
       stopperOnEvent fuel p me
 
 /-- ApplicationStartJobs.process_job; returns (queued, updated command) -/
-def processJob (fuel : Nat) (app : Nat) (c : Command) : M (Bool × Command) := do
+def processJob (fuel : Nat) (app : Nat) (runId : Nat) (jobCurrent : List Command) (c : Command) : M (Bool × Command) := do
   match fuel with
   | 0 => return (false, c)
   | fuel + 1 =>
     let w ← get
     let x := w.procs.getD c.proc {}
     if procStopped x then
-      -- the job is found in `current` of the Starter (it is being processed)
-      let job := (w.current.find? (·.app = app)).getD { app := app, planned := [] }
-      let req := jobLoadRequests w job
+      -- `self.get_load_requests()` of the job OBJECT being processed (it may have been dropped from the Starter by a
+      -- re-entrant `Commander.next`: its own command list is what counts); planned commands have no target here
+      let req := jobLoadRequests w { app := app, planned := [], current := jobCurrent }
       let cfgp := w.pcfg.getD c.proc default
       let c := match chooseInstance w c.strategy (possibleIdentifiers w c.proc) cfgp.load req with
         | some i => { c with target := some i, waitTicks := waitTicksOf cfgp.startsecs }
         | none => c
       match c.target with
       | some i =>
-        emit (.start c.proc i)
+        emit (.start c.proc i runId c.strategy)
         return (true, { c with reqCounter := w.counter.getD i 0 })
       | none =>
-        failCommand fuel c.proc none w.now .fatal
-        modify fun w => { w with current := w.current.map (fun j => if j.app = app then processFailure w j c.proc else j) }
+        failCommand fuel c.proc none w.now .fatal runId
+        modify fun w => { w with current := w.current.map (fun j => if j.app = app ∧ j.runId = runId then processFailure w j c.proc else j) }
         return (false, c)
     else return (false, c)
 
@@ -327,11 +356,13 @@ def jobNext (fuel : Nat) (app : Nat) : M Unit := do
         | none => pure ()
         | some k =>
           let (grp, rest) := popKey k j.planned
-          modify fun w => { w with current := w.current.map (fun x => if x.app = app then { x with planned := rest } else x) }
+          modify fun w => { w with current := w.current.map (fun x => if x.app = app ∧ x.runId = j.runId then { x with planned := rest } else x) }
+          let mut mine : List Command := []      -- `self.current_jobs` of this job object
           for c in grp.getD [] do
-            let (queued, c') ← processJob fuel app c
+            let (queued, c') ← processJob fuel app j.runId mine c
             if queued then
-              modify fun w => { w with current := w.current.map (fun x => if x.app = app then { x with current := x.current ++ [c'] } else x) }
+              mine := mine ++ [c']
+              modify fun w => { w with current := w.current.map (fun x => if x.app = app ∧ x.runId = j.runId then { x with current := x.current ++ [c'] } else x) }
           jobNext fuel app
 
 /-- Commander.next -/
@@ -341,11 +372,14 @@ def starterNext (fuel : Nat) : M Unit := do
   | fuel + 1 =>
     let w ← get
     for j in w.current do
-      let jj := ((← get).current.find? (·.app = j.app)).getD j
-      if !jobInProgress jj then
-        -- Starter.after, then removal from current_jobs
-        if jj.stopRequest then stopApplication fuel jj.app
-        modify fun w => { w with current := w.current.filter (·.app ≠ jj.app) }
+      -- the entry must still be this very job object (`after` of another job may have removed or replaced it)
+      match (← get).current.find? (·.app = j.app) with
+      | some jj =>
+        if jj.runId = j.runId ∧ !jobInProgress jj then
+          -- removal from current_jobs, then Starter.after
+          modify fun w => { w with current := w.current.filter (·.app ≠ jj.app) }
+          if jj.stopRequest then stopApplication fuel jj.app
+      | none => pure ()
     let w ← get
     if !w.planned.isEmpty ∧ w.current.isEmpty then
       match minKey w.planned with
@@ -434,16 +468,18 @@ def stopperNext (fuel : Nat) : M Unit := do
   | fuel + 1 =>
     let w ← get
     for j in w.scurrent do
-      let jj := ((← get).scurrent.find? (·.app = j.app)).getD j
-      if !stopJobInProgress jj then
-        -- Stopper.after: pending application start request
-        let w ← get
-        match w.appStartReq.find? (·.1 = jj.app) with
-        | some (_, strat) =>
-          modify fun w => { w with appStartReq := w.appStartReq.filter (·.1 ≠ jj.app) }
-          startApplication fuel jj.app strat
-        | none => pure ()
-        modify fun w => { w with scurrent := w.scurrent.filter (·.app ≠ jj.app) }
+      match (← get).scurrent.find? (·.app = j.app) with
+      | some jj =>
+        if jj.runId = j.runId ∧ !stopJobInProgress jj then
+          modify fun w => { w with scurrent := w.scurrent.filter (·.app ≠ jj.app) }
+          -- Stopper.after: pending application start request
+          let w ← get
+          match w.appStartReq.find? (·.1 = jj.app) with
+          | some (_, strat) =>
+            modify fun w => { w with appStartReq := w.appStartReq.filter (·.1 ≠ jj.app) }
+            startApplication fuel jj.app strat
+          | none => pure ()
+      | none => pure ()
     let w ← get
     if !w.splanned.isEmpty ∧ w.scurrent.isEmpty then
       match maxKey w.splanned with
@@ -497,9 +533,10 @@ def starterCheck (fuel : Nat) : M Unit := do
           let cnt := w.counter.getD i 0
           let res := startCheckResult cfgp.waitExit c.ignoreWaitExit v.state c.reqCounter c.waitTicks cnt
           if res = 3 then
-            modify fun w => { w with current := w.current.map (fun jj => if jj.app = j.app then
-              { jj with current := jj.current.filter (fun cc => !(cc.proc = c.proc ∧ cc.target = c.target)) } else jj) }
-            failCommand fuel c.proc (some i) v.etime .fatal
+            -- the command is removed, the starting failure strategy applied, then the state forced
+            modify fun w => { w with current := w.current.map (fun jj => if jj.app = j.app ∧ jj.runId = j.runId then
+              processFailure w { jj with current := jj.current.filter (fun cc => !(cc.proc = c.proc ∧ cc.target = c.target)) } c.proc else jj) }
+            failCommand fuel c.proc (some i) v.etime .fatal j.runId
           if res = 1 then
             modify fun w => { w with current := w.current.map (fun jj => if jj.app = j.app then
               { jj with current := jj.current.filter (fun cc => !(cc.proc = c.proc ∧ cc.target = c.target)) } else jj) }
